@@ -247,7 +247,13 @@ def _expr(e):
             out += [ident(n), op("=")] + expr(v, 0)
         return out + [pu("*>")]
     if k == "call":
-        return expr(e[1], P_POSTFIX) + [pu("(")] + _args(e[2]) + [pu(")")]
+        # only identifiers, parenthesised expressions and postfix chains
+        # starting with one can be followed by a call
+        f = e[1]
+        ft = expr(f, P_POSTFIX) if f[0] in (
+            "var", "call", "index", "member", "method", "pipe", "slice",
+            "par") else paren(_expr(f))
+        return ft + [pu("(")] + _args(e[2]) + [pu(")")]
     if k == "pipe":
         f = e[2]
         ft = [ident(f[1])] if f[0] == "var" else paren(_expr(f))
